@@ -665,7 +665,7 @@ func TestC20Hazard(t *testing.T) {
 		peers := gen.Peers(r, 2)
 		self, other := peers[0], peers[1]
 		v := gen.SimpleVoucher("VT0", "v")
-		switch c.Index % 4 {
+		switch c.Index % 6 {
 		case 3:
 			// (ii) the responder's graphsync request (carrying its acceptance) is in the incoming-request
 			// hook while the same channel is being closed / failed: hook and cleanup meet
@@ -742,11 +742,86 @@ func TestC20Hazard(t *testing.T) {
 				f.tr.PauseChannel(bg, chid)
 			})
 			c.Count("hazard.cleanup-during-open", 1)
+		case 4, 5:
+			// (v) pause / resume of a channel while a graphsync message for the SAME channel is queued in
+			// the graphsync manager loop that serves the pause: the loop then runs the transport's hook
+			// (case 4: incoming request at the responder of a pull, response manager; case 5: incoming
+			// response at the requester, request manager), which needs the channel the caller is using
+			f := newGsMgrFixPlain(c, self)
+			var chid datatransfer.ChannelID
+			inLoop, release := make(chan struct{}, 1), make(chan struct{})
+			var deliver func()
+			if c.Index%6 == 4 {
+				tid := datatransfer.TransferID(21)
+				chid = datatransfer.ChannelID{Initiator: other, Responder: self, ID: tid}
+				req, _ := message.NewRequest(tid, false, true, &v, dummyCid, gen.AllSelector)
+				f.gs.IncomingRequestHook(other, doubles.Req(graphsync.NewRequestID(), dtExt(req)), &testharness.FakeIncomingRequestHookActions{})
+				restart, _ := message.NewRequest(tid, true, true, &v, dummyCid, gen.AllSelector)
+				deliver = func() {
+					f.gs.IncomingRequestHook(other, doubles.Req(graphsync.NewRequestID(), dtExt(restart)), &testharness.FakeIncomingRequestHookActions{})
+				}
+			} else {
+				var err error
+				chid, err = f.m.OpenPullDataChannel(bg, other, v, dummyCid, gen.AllSelector)
+				if err != nil {
+					panic(err)
+				}
+				id, _ := f.lastRequest()
+				resp, _ := message.NewResponse(chid.ID, true, false, nil)
+				deliver = func() {
+					f.gs.IncomingResponseHook(other, doubles.Resp(id, dtExt(resp), graphsync.PartialResponse), &testharness.FakeIncomingResponseHookActions{})
+				}
+			}
+			if f.view(chid) == nil {
+				panic("hazard channel was not created")
+			}
+			ncalls := f.gs.Len()
+			f.gs.SetLoopGate(func(loop, hook string) {
+				select {
+				case inLoop <- struct{}{}:
+					<-release
+				default:
+				}
+			})
+			useResume := c.Index%12 >= 6
+			c.HangCheck("C20", fmt.Sprintf("pause-resume-while-message-queued-in-graphsync-loop case=%d resume=%v", c.Index%6, useResume), 6*time.Second, func() {
+				var wg sync.WaitGroup
+				wg.Add(2)
+				go func() { defer wg.Done(); deliver() }()
+				<-inLoop // the loop has picked the message up; its hook has not started yet
+				go func() {
+					defer wg.Done()
+					if useResume {
+						f.tr.ResumeChannel(bg, nil, chid)
+					} else {
+						f.m.PauseDataTransferChannel(bg, chid)
+					}
+				}()
+				// wait until the pause/resume has reached graphsync (it is now waiting for the loop)
+				for i := 0; i < 2000; i++ {
+					reached := false
+					for _, gc := range f.gs.Calls()[ncalls:] {
+						if gc.Op == "pause" || gc.Op == "unpause" {
+							reached = true
+						}
+					}
+					if reached {
+						c.Count("hazard.pause-reached-graphsync-with-message-queued", 1)
+						break
+					}
+					time.Sleep(time.Millisecond)
+				}
+				close(release)
+				wg.Wait()
+			})
+			f.gs.SetLoopGate(nil)
+			c.HangCheck("C20", "manager-stop", 20*time.Second, func() { f.m.Stop(bg) })
+			c.Count("hazard.pause-vs-queued-graphsync-message", 1)
 		}
-		c.Mark("hazard=%d", c.Index%4)
+		c.Mark("hazard=%d", c.Index%6)
 		c.NonTrivial()
 		if c.Index < 3 {
-			c.Sample(map[string]any{"hazard": []string{"gs request carrying a dt cancel request", "OnChannelOpened refuses inside the outgoing-request hook", "CleanupChannel between OpenChannel and its outgoing-request hook", "incoming-request hook overlapping the ending of the same channel"}[c.Index%4]})
+			c.Sample(map[string]any{"hazard": []string{"gs request carrying a dt cancel request", "OnChannelOpened refuses inside the outgoing-request hook", "CleanupChannel between OpenChannel and its outgoing-request hook", "incoming-request hook overlapping the ending of the same channel", "pause/resume while an incoming request for the channel is queued in graphsync's response manager loop", "pause/resume while an incoming response for the channel is queued in graphsync's request manager loop"}[c.Index%6]})
 		}
 	})
 }
